@@ -1,3 +1,4 @@
+import copy
 import threading
 import time
 from collections import namedtuple
@@ -93,7 +94,9 @@ class PeriodicReportsHandler:
         self._store_for_periodic_report(mdib_version, state_updates, self._periodic_operational_state_reports)
 
     def _store_for_periodic_report(self, mdib_version, state_updates, destination_list):
-        copied_updates = [s.mk_copy() for s in state_updates]
+        # private copies at every nesting depth: the states of the transaction result are also handed to the
+        # application (observers), mk_copy would share nested values like MetricValue with them
+        copied_updates = [copy.deepcopy(s) for s in state_updates]
         with self._periodic_reports_lock:
             destination_list.append(PeriodicStates(mdib_version, copied_updates))
 
